@@ -469,7 +469,13 @@ def rule_cachekey(ctx) -> None:
                   "(e.g. per-slice) cap, which then reports more pops/layers than its budget allows")
 
 
+def rule_zero_caps(ctx) -> None:
+    from ..zero import zero_cap_rule
+    zero_cap_rule(ctx, "C12.LOOP", ["clematis.engine.stages.t1:t1_propagate._t1_one_graph"], 1)
+
+
 def run(ctx) -> None:
+    rule_zero_caps(ctx)
     rule_ro(ctx)
     rule_loop(ctx)
     rule_pair(ctx)
